@@ -514,6 +514,22 @@ func (p *Prog) Paths(entry *ssa.Function, opts PSOpts) []*Path {
 	return x.paths
 }
 
+// lenAtom: len(x) <op> n as an atom; for a string, len(s) == 0 is s == "" (one atom for both spellings).
+func lenAtom(x *T, c string, neg bool) Atom {
+	if c == "==0" && x != nil {
+		t := x.Typ
+		if t == nil && x.V != nil {
+			t = x.V.Type()
+		}
+		if t != nil {
+			if b, ok := t.Underlying().(*types.Basic); ok && b.Info()&types.IsString != 0 {
+				return Atom{Kind: "streq", A: x, Const: `""`, Neg: neg}
+			}
+		}
+	}
+	return Atom{Kind: "len", A: x, Const: c, Neg: neg}
+}
+
 type carriedInfo struct {
 	Init *T
 	Src  []*T
@@ -693,6 +709,16 @@ func (x *explorer) run(st *state, fr *frame, b *ssa.BasicBlock, prev *ssa.BasicB
 		if body, isHeader := x.loops(fr.fn)[b]; isHeader && x.unrolling(st, fr, b, prev, body) {
 			// a range over a short literal of constants: walked element by element with concrete indices
 			x.evalPhis(st, fr, b, prev)
+		} else if cl := mapCopyLoopAt(b, body); isHeader && cl != nil && (prev == nil || !body[prev]) {
+			// "m2 := make(map...); for k, v := range m { [if k != K] m2[k] = v }": m2 is maps.Clone(m) [minus K]
+			x.nTerms++
+			ct := &T{Op: "clone", N: x.nTerms, Args: []*T{x.val(st, fr, cl.src)}, V: cl.dst, Typ: concreteType(cl.dst.Type())}
+			x.set(st, fr, cl.dst, ct)
+			if cl.excl != nil {
+				x.effect(st, fr, Effect{Kind: "mapdel", Args: []*T{ct, x.val(st, fr, cl.excl)}, Pos: cl.pos})
+			}
+			x.run(st, fr, cl.exit, b, 0)
+			return
 		} else if isHeader {
 			// back edge?
 			for i := len(st.loops) - 1; i >= 0; i-- {
@@ -760,6 +786,126 @@ func (x *explorer) run(st *state, fr *frame, b *ssa.BasicBlock, prev *ssa.BasicB
 			x.instr(st, fr, in)
 		}
 	}
+}
+
+// mapCopyLoop describes a loop that does nothing but copy the entries of one map into a map made just for it.
+type mapCopyLoop struct {
+	src  ssa.Value    // the map ranged over
+	dst  *ssa.MakeMap // the fresh map that receives every entry
+	excl ssa.Value    // the one key left out (k != excl guards the store), or nil
+	exit *ssa.BasicBlock
+	pos  token.Pos
+}
+
+// mapCopyLoopAt: h heads "for k, v := range src { dst[k] = v }" or "... { if k != K { dst[k] = v } }" where dst is a
+// make(map) that nothing touches before the loop and nothing else writes inside it: after the loop dst holds what
+// maps.Clone(src) followed by delete(dst, K) holds (it is non-nil where Clone(nil) is nil; the may-be-nil analysis
+// works on the SSA and is not affected). Anything else in the body — another store, a call, a carried variable —
+// and the loop is explored like any other.
+func mapCopyLoopAt(h *ssa.BasicBlock, body map[*ssa.BasicBlock]bool) *mapCopyLoop {
+	if body == nil || len(h.Instrs) != 3 || len(h.Succs) != 2 {
+		return nil
+	}
+	next, ok := h.Instrs[0].(*ssa.Next)
+	if !ok || next.IsString {
+		return nil
+	}
+	rng, ok := next.Iter.(*ssa.Range)
+	if !ok {
+		return nil
+	}
+	if _, isMap := rng.X.Type().Underlying().(*types.Map); !isMap {
+		return nil
+	}
+	okX, ok := h.Instrs[1].(*ssa.Extract)
+	if !ok || okX.Tuple != ssa.Value(next) || okX.Index != 0 {
+		return nil
+	}
+	iff, ok := h.Instrs[2].(*ssa.If)
+	if !ok || iff.Cond != ssa.Value(okX) || !body[h.Succs[0]] || body[h.Succs[1]] {
+		return nil
+	}
+	cl := &mapCopyLoop{src: rng.X, exit: h.Succs[1]}
+	var key, val *ssa.Extract
+	stores := 0
+	for blk := range body {
+		if blk == h {
+			continue
+		}
+		for _, in := range blk.Instrs {
+			switch ins := in.(type) {
+			case *ssa.DebugRef, *ssa.Jump:
+			case *ssa.Extract:
+				if ins.Tuple != ssa.Value(next) {
+					return nil
+				}
+				switch ins.Index {
+				case 1:
+					key = ins
+				case 2:
+					val = ins
+				default:
+					return nil
+				}
+			case *ssa.BinOp:
+				if ins.Op != token.NEQ || cl.excl != nil {
+					return nil
+				}
+				kx, isX := ins.X.(*ssa.Extract)
+				if !isX || kx.Tuple != ssa.Value(next) || kx.Index != 1 {
+					return nil
+				}
+				if yi, isInstr := ins.Y.(ssa.Instruction); isInstr && body[yi.Block()] {
+					return nil
+				}
+				cl.excl = ins.Y
+			case *ssa.If:
+				cmp, isCmp := ins.Cond.(*ssa.BinOp)
+				if !isCmp || cmp.Block() != blk || cmp.Op != token.NEQ {
+					return nil
+				}
+				// k != K: the true branch stores, the false branch goes straight back to the header
+				if blk.Succs[1] != h {
+					return nil
+				}
+			case *ssa.MapUpdate:
+				mk, isMake := ins.Map.(*ssa.MakeMap)
+				kx, isK := ins.Key.(*ssa.Extract)
+				vx, isV := ins.Value.(*ssa.Extract)
+				if !isMake || !isK || !isV || kx.Tuple != ssa.Value(next) || kx.Index != 1 || vx.Tuple != ssa.Value(next) || vx.Index != 2 {
+					return nil
+				}
+				cl.dst, cl.pos = mk, ins.Pos()
+				stores++
+			default:
+				return nil
+			}
+		}
+	}
+	_, _ = key, val
+	if stores != 1 || cl.dst == nil || body[cl.dst.Block()] {
+		return nil
+	}
+	if !types.Identical(cl.dst.Type().Underlying(), rng.X.Type().Underlying()) {
+		return nil
+	}
+	// nothing but the loop's store touches the fresh map before the loop is over
+	for _, ref := range *cl.dst.Referrers() {
+		if _, isDbg := ref.(*ssa.DebugRef); isDbg {
+			continue
+		}
+		rb := ref.Block()
+		if body[rb] {
+			if _, isUpd := ref.(*ssa.MapUpdate); !isUpd {
+				return nil
+			}
+			continue
+		}
+		if rb == h || rb.Dominates(h) {
+			return nil
+		}
+	}
+	return cl
 }
 
 // unrolling: b is the header of "for i, v := range <literal of at most four constants>" (or an index loop with such
@@ -1399,7 +1545,7 @@ func (x *explorer) cond(st *state, t *T) (Atom, bool, bool) {
 					return Atom{Kind: "streq", A: a, Const: b.Name, Neg: neg}, false, false
 				}
 				if a.Op == "len" {
-					return Atom{Kind: "len", A: a.Args[0], Const: "==" + b.Name, Neg: neg}, false, false
+					return lenAtom(a.Args[0], "==" + b.Name, neg), false, false
 				}
 				return Atom{Kind: "eq", A: a, B: b, Neg: neg}, false, false
 			}
@@ -1429,22 +1575,22 @@ func (x *explorer) cond(st *state, t *T) (Atom, bool, bool) {
 			switch op {
 			case ">":
 				if b.Name == "0" {
-					return Atom{Kind: "len", A: a.Args[0], Const: "==0", Neg: true}, false, false
+					return lenAtom(a.Args[0], "==0", true), false, false
 				}
 			case ">=":
 				if b.Name == "1" {
-					return Atom{Kind: "len", A: a.Args[0], Const: "==0", Neg: true}, false, false
+					return lenAtom(a.Args[0], "==0", true), false, false
 				}
 			case "<":
 				if b.Name == "1" {
-					return Atom{Kind: "len", A: a.Args[0], Const: "==0"}, false, false
+					return lenAtom(a.Args[0], "==0", false), false, false
 				}
 			case "<=":
 				if b.Name == "0" {
-					return Atom{Kind: "len", A: a.Args[0], Const: "==0"}, false, false
+					return lenAtom(a.Args[0], "==0", false), false, false
 				}
 			}
-			return Atom{Kind: "len", A: a.Args[0], Const: op + b.Name}, false, false
+			return lenAtom(a.Args[0], op + b.Name, false), false, false
 		}
 		// a range index is never negative
 		if a.Op == "idx" && b.Op == "const" {
@@ -2320,6 +2466,26 @@ func (x *explorer) builtin(st *state, fr *frame, name string, args []*T, ci ssa.
 		x.effect(st, fr, Effect{Kind: "mapdel", Args: args, Pos: ci.Pos()})
 		return nil
 	case "copy":
+		// out := make([]T, len(src)[, cap]); copy(out, src): out is slices.Clone(src) (non-nil where Clone(nil) is nil;
+		// the may-be-nil analysis works on the SSA and is not affected)
+		if len(args) == 2 && args[0].Op == "fresh" && args[0].Name == "slice" && len(args[0].Args) == 1 && args[0].Args[0].Op == "len" &&
+			len(args[0].Args[0].Args) == 1 && args[0].Args[0].Args[0].String() == args[1].String() {
+			if mk, ok := args[0].V.(*ssa.MakeSlice); ok && mk.Parent() == fr.fn {
+				touched := false
+				for _, e := range st.effects {
+					for _, a := range e.Args {
+						if a == args[0] || (a != nil && a.Contains(args[0])) {
+							touched = true
+						}
+					}
+				}
+				if !touched {
+					x.nTerms++
+					x.set(st, fr, mk, &T{Op: "clone", N: x.nTerms, Args: []*T{args[1]}, V: mk, Typ: concreteType(mk.Type())})
+					return &T{Op: "len", Args: []*T{args[1]}, V: v, Typ: types.Typ[types.Int]}
+				}
+			}
+		}
 		x.effect(st, fr, Effect{Kind: "elemset", Callee: "copy", Args: args, Pos: ci.Pos()})
 		return &T{Op: "call", Name: "builtin:copy", Args: args, V: v}
 	}
